@@ -1,7 +1,7 @@
 (* Entry points of the executable model, by name. One dispatcher so that the OCaml driver and
    the in-Coq case files need no per-function glue. *)
 From Coq Require Import ZArith NArith List String Bool.
-From Sia Require Import Prim.Result Prim.Tok Currency.Model Merkle.Tree Merkle.Forest Merkle.Acc Merkle.Rhp Policy.Model Pow.Model Codec.Schema Codec.Shape Codec.Irregular Gen.Schemas.
+From Sia Require Import Prim.Result Prim.Tok Currency.Model Merkle.Tree Merkle.Forest Merkle.Acc Merkle.Rhp Policy.Model Pow.Model Codec.Schema Codec.Shape Codec.Irregular Gen.Schemas Ledger.Types Ledger.Mid Ledger.Validate Ledger.Apply.
 Import ListNotations.
 Open Scope string_scope.
 Open Scope list_scope.
@@ -159,6 +159,176 @@ Section Dispatch.
     | _ => None
     end.
 
+  (* ---- ledger ---- *)
+  Definition p_sco : parser sco := let* v := pZ in let* a := pB in pret {| sco_value := v; sco_addr := a |}.
+  Definition p_sce : parser sce := let* i := pB in let* o := p_sco in let* m := pZ in pret {| sce_id := i; sce_out := o; sce_maturity := m |}.
+  Definition p_pres {A} (p : parser A) : parser (pres A) :=
+    let* l := pZ in let* ok := pbool in let* v := p in pret {| p_leaf := l; p_proof_ok := ok; p_val := v |}.
+  Definition p_sfe : parser sfe := let* i := pB in let* v := pZ in let* a := pB in let* c := pZ in pret {| sfe_id := i; sfe_value := v; sfe_addr := a; sfe_claim := c |}.
+  Definition p_fc1 : parser fc1 :=
+    let* fs := pZ in let* rt := pB in let* ws := pZ in let* we := pZ in let* po := pZ in let* v := plist p_sco in let* ms := plist p_sco in
+    let* uh := pB in let* rn := pZ in
+    pret {| fc_filesize := fs; fc_root := rt; fc_wstart := ws; fc_wend := we; fc_payout := po; fc_valid := v; fc_missed := ms; fc_uh := uh; fc_revnum := rn |}.
+  Definition p_fce1 : parser fce1 := let* i := pB in let* fc := p_fc1 in pret {| fce_id := i; fce_fc := fc |}.
+  Definition p_fc2 : parser fc2 :=
+    let* cap := pZ in let* fs := pZ in let* rt := pB in let* ph := pZ in let* eh := pZ in let* ro := p_sco in let* ho := p_sco in
+    let* mh := pZ in let* tc := pZ in let* rk := pB in let* hk := pB in let* rn := pZ in let* rs := pB in let* hs := pB in let* sh := pB in
+    pret {| c_capacity := cap; c_filesize := fs; c_root := rt; c_proof_height := ph; c_exp_height := eh; c_renter := ro; c_host := ho;
+            c_missed_host := mh; c_collateral := tc; c_renter_key := rk; c_host_key := hk; c_revnum := rn; c_renter_sig := rs; c_host_sig := hs;
+            c_sighash := sh; c_tax := 0%Z |}.
+  Definition p_fce2 : parser fce2 := let* i := pB in let* fc := p_fc2 in pret {| v2_id := i; v2_fc := fc |}.
+  Definition p_keys : parser (list (bytes * bytes)) := plist (let* a := pB in let* k := pB in pret (a, k)).
+  Definition p_sci1 : parser sci1 := let* p := pB in let* tl := pZ in let* uh := pB in let* ks := p_keys in let* n := pZ in
+    pret {| i1_parent := p; i1_timelock := tl; i1_uh := uh; i1_keys := ks; i1_need := n |}.
+  Definition p_sfi1 : parser sfi1 := let* p := pB in let* tl := pZ in let* uh := pB in let* ks := p_keys in let* n := pZ in let* ca := pB in let* ci := pB in
+    pret {| f1_parent := p; f1_timelock := tl; f1_uh := uh; f1_keys := ks; f1_need := n; f1_claim_addr := ca; f1_claim_id := ci |}.
+  Definition p_rev1 : parser rev1 := let* p := pB in let* tl := pZ in let* uh := pB in let* ks := p_keys in let* n := pZ in let* fc := p_fc1 in
+    pret {| r1_parent := p; r1_timelock := tl; r1_uh := uh; r1_keys := ks; r1_need := n; r1_fc := fc |}.
+  Definition p_sp1 : parser sp1 := let* p := pB in let* lf := pB in let* pr := plist pB in let* ids := plist pB in
+    pret {| s1_parent := p; s1_leaf := lf; s1_proof := pr; s1_valid_ids := ids |}.
+  Definition p_sig1 : parser sig1 := let* p := pB in let* ki := pZ in let* tl := pZ in let* w := pbool in let* c := pbool in let* sg := pB in let* sh := pB in
+    pret {| g_parent := p; g_keyidx := ki; g_timelock := tl; g_whole := w; g_covered_ok := c; g_sig := sg; g_sighash := sh |}.
+  Definition p_arb : parser arb := let* k := pnat in
+    match k with O => pret ArbOther | S O => pret ArbBadUpdate | _ => let* a := pB in let* b := pB in pret (ArbUpdate a b) end.
+  Definition p_idsco : parser (id * sco) := let* i := pB in let* o := p_sco in pret (i, o).
+  Definition p_idsfo : parser (id * (Z * bytes)) := let* i := pB in let* v := pZ in let* a := pB in pret (i, (v, a)).
+  Definition p_txn1 : parser txn1 :=
+    let* i := pB in let* w := pZ in let* a := plist p_sci1 in let* b := plist p_idsco in let* c := plist p_sfi1 in let* d := plist p_idsfo in
+    let* e := plist (let* i := pB in let* fc := p_fc1 in pret (i, fc, 0%Z)) in let* f := plist p_rev1 in let* g := plist p_sp1 in
+    let* h := plist pZ in let* ar := plist p_arb in let* sg := plist p_sig1 in
+    pret {| t1_id := i; t1_weight := w; t1_sci := a; t1_sco := b; t1_sfi := c; t1_sfo := d; t1_fc := e; t1_rev := f; t1_sp := g;
+            t1_fees := h; t1_arb := ar; t1_sigs := sg |}.
+  Definition p_supp1 : parser supp1 :=
+    let* a := plist (p_pres p_sce) in let* b := plist (p_pres p_sfe) in let* c := plist (p_pres p_fce1) in
+    let* d := plist (let* fc := p_pres p_fce1 in let* w := pB in pret {| ss_fc := fc; ss_window := w |}) in
+    pret {| u_sci := a; u_sfi := b; u_rev := c; u_sp := d |}.
+  Definition p_sat (fuel : nat) : parser satisfied :=
+    let* p := p_policy fuel in let* sg := plist pB in let* pr := plist pB in pret {| sp_policy := p; sp_sigs := sg; sp_pres := pr |}.
+  Definition p_sci2 (fuel : nat) : parser sci2 := let* p := p_pres p_sce in let* s := p_sat fuel in pret {| i2_parent := p; i2_policy := s |}.
+  Definition p_sfi2 (fuel : nat) : parser sfi2 := let* p := p_pres p_sfe in let* ca := pB in let* ci := pB in let* s := p_sat fuel in
+    pret {| f2_parent := p; f2_claim_addr := ca; f2_claim_id := ci; f2_policy := s |}.
+  Definition p_rev2 : parser rev2 := let* p := p_pres p_fce2 in let* r := p_fc2 in pret {| r2_parent := p; r2_rev := r |}.
+  Definition p_res2 : parser res2 :=
+    let* p := p_pres p_fce2 in let* k := pnat in
+    let* r := match k with
+              | O => let* fr := p_sco in let* fh := p_sco in let* rr := pZ in let* hr := pZ in let* nc := p_fc2 in let* rs := pB in let* hs := pB in
+                     let* sh := pB in let* ni := pB in
+                     pret (RRenewal {| rn_final_renter := fr; rn_final_host := fh; rn_renter_rollover := rr; rn_host_rollover := hr; rn_new := nc;
+                                       rn_renter_sig := rs; rn_host_sig := hs; rn_sighash := sh; rn_new_id := ni |})
+              | S O => let* ix := p_pres (let* i := pB in let* h := pZ in pret (i, h)) in let* lf := pB in let* pr := plist pB in
+                       pret (RProof {| sp2_index := ix; sp2_leaf := lf; sp2_proof := pr |})
+              | _ => pret RExpiration
+              end in
+    let* ri := pB in let* hi := pB in pret {| rs_parent := p; rs_res := r; rs_renter_id := ri; rs_host_id := hi |}.
+  Definition p_att : parser att := let* i := pB in let* ke := pbool in let* pk := pB in let* sg := pB in let* sh := pB in
+    pret {| at_id := i; at_key_empty := ke; at_pubkey := pk; at_sig := sg; at_sighash := sh |}.
+  Definition p_txn2 (fuel : nat) : parser txn2 :=
+    let* i := pB in let* w := pZ in let* sh := pB in let* a := plist (p_sci2 fuel) in let* b := plist p_idsco in let* c := plist (p_sfi2 fuel) in
+    let* d := plist p_idsfo in let* e := plist (let* i := pB in let* fc := p_fc2 in pret (i, fc)) in let* f := plist p_rev2 in let* g := plist p_res2 in
+    let* atts := plist p_att in let* nf := pnat in
+    let* nfa := match nf with O => pret None | _ => let* a := pB in pret (Some a) end in
+    let* fee := pZ in
+    pret {| t2_id := i; t2_weight := w; t2_sighash := sh; t2_sci := a; t2_sco := b; t2_sfi := c; t2_sfo := d; t2_fc := e; t2_rev := f; t2_res := g;
+            t2_att := atts; t2_new_foundation := nfa; t2_fee := fee |}.
+  Definition p_lblock (fuel : nat) : parser lblock :=
+    let* i := pB in let* v2 := pbool in let* vh := pZ in let* co := pbool in let* hc := pZ in let* po := plist p_idsco in let* fi := pB in
+    let* t1 := plist p_txn1 in let* t2 := plist (p_txn2 fuel) in let* su := plist p_supp1 in
+    let* ex := plist (let* fc := p_pres p_fce1 in let* ids := plist pB in pret (fc, ids)) in let* nm := pZ in
+    pret {| b_id := i; b_is_v2 := v2; b_v2_height := vh; b_commit_ok := co; b_header_code := hc; b_payouts := po; b_foundation_id := fi;
+            b_txns := t1; b_v2txns := t2; b_supp := su; b_expiring := ex; b_next_median := nm |}.
+  Definition p_lnet : parser lnetwork :=
+    let* a := pZ in let* b := pZ in let* c := pZ in let* d := pZ in let* e := pZ in let* f := pZ in let* g := pZ in let* h := pZ in
+    let* i := pZ in let* j := pB in let* k := pB in let* l := pZ in let* m := pZ in let* n := pZ in let* o := pZ in
+    pret {| ln_v2_allow := a; ln_v2_require := b; ln_v2_final := c; ln_v2_ephemeral := d; ln_maturity_delay := e; ln_tax_height := f;
+            ln_sp_height := g; ln_foundation_height := h; ln_devaddr_height := i; ln_devaddr_old := j; ln_devaddr_new := k;
+            ln_initial_coinbase := l; ln_min_coinbase := m; ln_blocks_per_month := n; ln_blocks_per_year := o |}.
+  Definition p_lleaf : parser leaf :=
+    let* k := pnat in
+    let* e := match k with
+              | 0 => let* x := p_sce in pret (ESC x)
+              | 1 => let* x := p_sfe in pret (ESF x)
+              | 2 => let* x := p_fce1 in pret (EFC x)
+              | 3 => let* x := p_fce2 in pret (EV2 x)
+              | 4 => let* i := pB in let* h := pZ in pret (ECI i h)
+              | _ => let* i := pB in pret (EAT i)
+              end%nat in
+    let* sp := pbool in pret {| l_elem := e; l_spent := sp |}.
+  Definition p_lstate : parser lstate :=
+    let* h := pZ in let* ii := pB in let* po := pZ in let* fs := pB in let* fm := pB in let* md := pZ in let* ls := plist p_lleaf in
+    pret {| s_height := h; s_index_id := ii; s_pool := po; s_found_subsidy := fs; s_found_mgmt := fm; s_median := md; s_leaves := ls |}.
+  Definition p_vt : parser vtab := plist (let* k := pB in let* h := pB in let* s := pB in pret (k, h, s)).
+  Definition p_step (fuel : nat) : parser (nat * lblock * vtab * ptab) :=
+    let* op := pnat in
+    match op with
+    | 2%nat => pret (op, {| b_id := []; b_is_v2 := false; b_v2_height := 0%Z; b_commit_ok := true; b_header_code := 0%Z; b_payouts := []; b_foundation_id := [];
+                            b_txns := []; b_v2txns := []; b_supp := []; b_expiring := []; b_next_median := 0%Z |}, [], [])
+    | _ => let* b := p_lblock fuel in let* v := p_vt in let* p := p_pairs in pret (op, b, v, p)
+    end.
+  Definition t_res_code (r : R unit) : list tok :=
+    match r with Ok _ => [TZ 0] | Err c => [TZ 1; TZ c] | Panic p => [TZ 2; TZ (pan_code p)] end.
+  (* created elements get consecutive leaf indices, in the order ApplyBlock appends them *)
+  Fixpoint assign_leaves (ls : list Z) (next : Z) : list Z :=
+    match ls with
+    | [] => []
+    | l :: r => if Z.eqb l UNASSIGNED then next :: assign_leaves r (next + 1)%Z else l :: assign_leaves r next
+    end.
+  Definition t_mid (base : Z) (m : mid) : list tok :=
+    let lv := assign_leaves (map d_sc_leaf (m_sces m) ++ map d_sf_leaf (m_sfes m) ++ map d_fc_leaf (m_fces m) ++ map d_v2_leaf (m_v2fces m)) base in
+    let n1 := List.length (m_sces m) in let n2 := List.length (m_sfes m) in let n3 := List.length (m_fces m) in
+    let lfat (k : nat) := TZ (nth k lv 0%Z) in
+    tnat n1
+    :: List.concat (map (fun kd => let '(k, d) := kd in
+                                   [TB (sce_id (d_sce d)); TZ (sco_value (sce_out (d_sce d))); TB (sco_addr (sce_out (d_sce d))); TZ (sce_maturity (d_sce d));
+                                    lfat k; tbool (d_sc_created d); tbool (d_sc_spent d)]) (combine (seq 0 n1) (m_sces m)))
+    ++ tnat n2
+    :: List.concat (map (fun kd => let '(k, d) := kd in
+                                   [TB (sfe_id (d_sfe d)); TZ (sfe_value (d_sfe d)); TB (sfe_addr (d_sfe d)); TZ (sfe_claim (d_sfe d));
+                                    lfat (n1 + k)%nat; tbool (d_sf_created d); tbool (d_sf_spent d)]) (combine (seq 0 n2) (m_sfes m)))
+    ++ tnat n3
+    :: List.concat (map (fun kd => let '(k, d) := kd in
+                                   [TB (fce_id (d_fce d)); lfat (n1 + n2 + k)%nat; tbool (d_fc_created d); TZ (fc_revnum (fce_fc (d_fce d)));
+                                    TZ (match d_fc_rev d with Some r => fc_revnum r | None => (-1)%Z end); tbool (d_fc_resolved d); tbool (d_fc_valid d)])
+                        (combine (seq 0 n3) (m_fces m)))
+    ++ tnat (List.length (m_v2fces m))
+    :: List.concat (map (fun kd => let '(k, d) := kd in
+                                   [TB (v2_id (d_v2 d)); lfat (n1 + n2 + n3 + k)%nat; tbool (d_v2_created d); TZ (c_revnum (v2_fc (d_v2 d)));
+                                    TZ (match d_v2_rev d with Some r => c_revnum r | None => (-1)%Z end);
+                                    TZ (match d_v2_res d with Some k => k | None => (-1)%Z end)]) (combine (seq 0 (List.length (m_v2fces m))) (m_v2fces m)))
+    ++ [tnat (List.length (m_aes m))].
+  Definition t_summary (s : lstate) : list tok :=
+    [TZ (s_height s); TZ (s_pool s); TB (s_found_subsidy s); TB (s_found_mgmt s); tnat (List.length (s_leaves s));
+     TZ (siacoin_total s); TZ (siafund_total s)].
+  (* fold the steps over a stack of states (a revert pops) *)
+  Fixpoint run_steps (net : lnetwork) (stack : list lstate) (steps : list (nat * lblock * vtab * ptab)) : list tok :=
+    match steps, stack with
+    | [], _ => []
+    | _, [] => [TZ (-2)]
+    | (op, b, vt, pt) :: rest, s :: older =>
+      match op with
+      | 2%nat => match older with
+                 | [] => [TZ (-3)]
+                 | s' :: _ => TZ 7 :: t_summary s' ++ run_steps net older rest
+                 end
+      | _ =>
+        let v := validate_block H net vt pt SPEC_ENTROPY SPEC_ED25519 s b in
+        match op, v with
+        | 1%nat, Ok _ =>
+          match apply_block net s b with
+          | Ok (s', m) => t_res_code v ++ t_summary s' ++ t_mid (Z.of_nat (List.length (s_leaves s))) m ++ run_steps net (s' :: stack) rest
+          | Err c => [TZ 1; TZ c; TZ (-4)]
+          | Panic p => [TZ 2; TZ (pan_code p); TZ (-4)] ++ run_steps net stack rest
+          end
+        | _, _ => t_res_code v ++ run_steps net stack rest
+        end
+      end
+    end.
+  Definition api_ledger (name : string) (args : list tok) : option (list tok) :=
+    if name =? "ledger.chain" then
+      let fuel := List.length args in
+      option_map (fun '(net, s0, steps) => t_summary s0 ++ run_steps net [s0] steps)
+        (run_parser (let* net := p_lnet in let* s0 := p_lstate in let* steps := plist (p_step fuel) in pret (net, s0, steps)) args)
+    else None.
+
   (* ---- C16: RHP Merkle ---- *)
   Definition p_action : parser action :=
     let* k := pnat in
@@ -233,11 +403,14 @@ Section Dispatch.
     match api_c11 name args with
     | Some r => r
     | None =>
+    match api_ledger name args with
+    | Some r => r
+    | None =>
     match name, args with
     | "hash", [TB b] => [TB (H b)]
     | "c05.run", _ => api_c05 args
     | "c05.leafhash", [TB e; TZ i; TZ s] => [TB (leaf_hash H (mkLeaf e (Z.to_N i) (negb (Z.eqb s 0))))]
     | "c05.proofroot", TB x :: TZ i :: ps => [TB (proofRootN H x (Z.to_N i) (List.concat (map (fun t => match t with TB b => [b] | _ => [] end) ps)))]
     | _, _ => bad_args
-    end end end end end end.
+    end end end end end end end.
 End Dispatch.
